@@ -398,7 +398,7 @@ class Ctx:
                   assumptions=s.assumptions, wall_s=round(time.time() - s.t0, 1), violations=len(s.violations))
         # only a full run against /repo itself rewrites the committed evidence file; partial (--only) runs and runs against a
         # scratch tree (VF_REPO, used for seeded changes) go to evidence/scratch/
-        evdir = os.path.join(VERIF, 'evidence') if (os.path.realpath(REPO) == '/repo' and not getattr(s, 'only', None)) else os.path.join(VERIF, 'evidence', 'scratch')
+        evdir = os.path.join(VERIF, 'evidence') if (os.path.realpath(REPO) == '/repo' and not getattr(s, 'only', None) and not os.environ.get('VF_EVID_SCRATCH')) else os.path.join(VERIF, 'evidence', 'scratch')
         os.makedirs(evdir, exist_ok=True)
         json.dump(ev, open(os.path.join(evdir, s.pid + '.json'), 'w'), indent=1, default=str)
         for h in broken: s.say('BROKEN-CHECK %s: %s' % (h.name, h.result.get('why')))
